@@ -27,6 +27,18 @@ pub fn alpha() -> Alpha {
 
 pub fn run(rep: &mut Rep) {
     let a = alpha();
+    if rep.profile == "miri" {
+        // Miri tier: a small sample of the same walks (teardown of channels holding queued messages, cancelled
+        // receivers, dropped context) under the undefined-behaviour / data-race interpreter
+        let mut wa = a.clone();
+        wa.max_ops = 8;
+        wa.max_conc = 4;
+        wa.max_inbound = 6;
+        rep.note("miri: 3 PRNG walks of 25 actions per shard, including drop(context) at random points");
+        let base = rep.shard * 1000;
+        walk_world_shardless(rep, "miri-walk", base, 3, 25, &wa);
+        return;
+    }
     let depth = if rep.quick() { 5 } else { 6 };
     rep.note(&format!("crash points: drop(context) offered at every step of every path of <= {depth} actions over {{create (unpolled) / start pub1/pub2/sub/ping, first poll, acks, hold/release the QoS 2 future, stall/release the writer (queued-but-unsent), inbound PUBLISH to a stream, take / hold / release stream}}; after the drop: every pending future and stream, and operations started afterwards, are checked under the wake-only executor"));
     let seed = rep.seed;
@@ -37,4 +49,20 @@ pub fn run(rep: &mut Rep) {
     wa.max_inbound = 30;
     let walks = if rep.quick() { 400 } else { 6000 };
     walk_world(rep, "walk", walks, 60, &|s| World::boot(WorldCfg { seed: s, order: (s % 4) as u8, ..Default::default() }), &wa);
+}
+
+fn walk_world_shardless(rep: &mut Rep, name: &str, base: u64, walks: u64, steps: usize, a: &Alpha) {
+    for k in 0..walks {
+        let id = format!("{name}:{}", base + k);
+        let seed = rep.seed.wrapping_mul(1_000_003).wrapping_add(base + k);
+        let mut rng = crate::sim::Rng::new(seed);
+        let mut w = World::boot(WorldCfg { seed, order: (k % 4) as u8, ..Default::default() });
+        let acts = run_walk(&mut w, a, &mut rng, steps);
+        rep.add("evaluations", 1);
+        rep.add("random_walks", 1);
+        rep.add("random_walk_actions", acts.len() as i64);
+        rep.distinct(&w.shape());
+        super::harvest(rep, &mut w, &id);
+        super::add_counters(rep, &w);
+    }
 }
